@@ -37,6 +37,9 @@ EXPLANATION += ' R1 evaluates set_four_index_element for all 256 index tuples of
 TECHNIQUE += '; representative-case evaluation where the routine branches on its data'
 EXPLANATION += ' R1 evaluates set_four_index_element on an array with earlier content and with a symbolic and a zero value (an early return on zero leaves the old content). R3: when volume() branches on its data (a shortcut for orthogonal cells) the symbolic case decides generic cells only, so integer cells of every orthogonality pattern, in both orientations, are evaluated against the exact Gram determinant.'
 # --- end metadata batch 7
+# --- metadata added for batch 8
+EXPLANATION += ' R1 also on a Fortran-ordered array and a transposed view (a write through a flat copy is lost); R5 also with an overlap matrix of integer dtype (eigenvectors filled into an array created like it are truncated).'
+# --- end metadata batch 8
 TRUSTED = ["CPython ast parser", "scipy.linalg.eigh(a, b) solves a v = w b v and returns (w, v)", "np.linalg.norm and abs are non-negative"]
 
 DOC_TRUE = {"y", "yes", "t", "true", "on", "1"}
